@@ -465,6 +465,30 @@ def index_guard(check: Check, repo: Repo, mods: list[Module], rule: str = "INDEX
 
 STOP_CATCHERS = {"StopIteration", "Exception", "BaseException"}
 
+_next_flows: dict[ast.AST, FactFlow] = {}
+
+
+def _nonempty_proof(call: ast.Call) -> str | None:
+    """next(iter(xs)) / next(iter(xs.values())): do the dominating facts entail len(xs) >= 1 ?"""
+    from sa.guards import Constraints, Lin
+
+    e = call.args[0]
+    if isinstance(e, ast.Call) and call_name(e) == "iter" and len(e.args) == 1:
+        e = e.args[0]
+    else:
+        return None
+    if isinstance(e, ast.Call) and isinstance(e.func, ast.Attribute) and e.func.attr in ("values", "keys", "items") and not e.args:
+        e = e.func.value
+    if not isinstance(e, (ast.Name, ast.Attribute)):
+        return None
+    fn = enclosing_function(call)
+    if fn is None or isinstance(fn, ast.Lambda):
+        return None
+    if fn not in _next_flows:
+        _next_flows[fn] = FactFlow(CFG(fn))
+    cons = Constraints(_next_flows[fn].facts_at(call))
+    return cons.prove_ge0(Lin({f"len({unparse(e)})": 1}, -1))
+
 
 def next_total(check: Check, repo: Repo, mods: list[Module], exempt: dict[tuple[str, str], str] | None = None, rule: str = "NEXT-TOTAL") -> None:
     check.rule(
@@ -483,10 +507,13 @@ def next_total(check: Check, repo: Repo, mods: list[Module], exempt: dict[tuple[
                 continue
             t = covered_by_try(c, STOP_CATCHERS)
             why = exempt.get((m.rel.split("src/graphql/")[-1], qualname_of(c)))
-            ok = t is not None or why is not None
+            proof = None
+            if t is None and why is None:
+                proof = _nonempty_proof(c)
+            ok = t is not None or why is not None or proof is not None
             check.ob(rule, c, node_text(c, 60), ok,
                      f"inside try/except covering StopIteration (line {t.lineno})" if t is not None else
-                     (f"exempt: {why}" if why else "no default and no handler for StopIteration"))
+                     (f"exempt: {why}" if why else (f"the collection is non-empty here: {proof}" if proof else "no default and no handler for StopIteration")))
 
 
 # -- suggestion_list: rows are allocated for the sequence that indexes them -----------
